@@ -865,7 +865,10 @@ class Tensor:
             # No need to constrain dtypes if we aren't tracking the graph.
             # Also, it is nice to enable complex arithmetic through mygrad
             # functions that are wrapped in no_autodiff
-            if not issubclass(dtype, CONSTANT_ONLY_DTYPES):
+            # (numpy.timedelta64 subclasses numpy.signedinteger, but is not a number)
+            if not issubclass(dtype, CONSTANT_ONLY_DTYPES) or issubclass(
+                dtype, np.timedelta64
+            ):
                 raise TypeError(
                     f"Tensor data must be of an floating type, integer type, or boolean type, "
                     f"received {dtype}"
